@@ -41,7 +41,7 @@ QueryOK(t, s, q) == ExactlyOnce(q[3], OverlapSet(s, lo, hi, q[1], q[2]))
 
 Accepts(ev) ==
   CASE ev.e = "Op" ->
-         /\ G("C06", "LegalOperation", Legal(ev))
+         /\ GD("C06", "LegalOperation", Legal(ev))
          /\ (ev.chk = 0 \/
              LET s == NewOrder(ev)
                  t == ShapeOf(ev)
@@ -73,7 +73,7 @@ TraceNext ==
   \/ /\ l <= NLines
      /\ LET ev == TraceLog[l] IN
         IF ev.e = "Reset" THEN ResetTo(ev) /\ l' = l + 1 /\ nchk' = nchk
-        ELSE IF Accepts(ev) THEN Apply(ev) /\ l' = l + 1 /\ nchk' = nchk + (IF ev.e = "Op" THEN ev.chk ELSE 0)
+        ELSE IF Judged(Accepts(ev)) THEN Apply(ev) /\ l' = l + 1 /\ nchk' = nchk + (IF ev.e = "Op" THEN ev.chk ELSE 0)
         ELSE ReportReject(l) /\ l' = NextResetFrom(l + 1) /\ UNCHANGED <<svars, nchk>>
   \/ /\ l = NLines + 1 /\ ReportDone(nchk) /\ l' = l + 1 /\ UNCHANGED <<svars, nchk>>
 
